@@ -850,6 +850,26 @@ theorem explicify_numbers_fresh (m m' : Mol) (h : explicify m = .ok m') :
       obtain ⟨h1, h2⟩ := ChythonModel.Proofs.C04Standardize.addHydrogens_ids (n :: tl) (m.ids.foldl max 0 + 1) m
       exact ⟨(n :: tl).length, h1, h2, hlt, fun hn => h1 ▸ hnd _ hn⟩
 
+/-- **No atom is lost or replaced.** After `explicify_hydrogens` the atom table is the old one — same numbers, elements, isotopes,
+    charges, radical states, same order (only the marks changed) — followed by plain neutral hydrogen atoms numbered from `max + 1`. -/
+theorem explicify_keeps_atoms (m m' : Mol) (h : explicify m = .ok m') :
+    ∃ k, m'.atoms.map ChythonModel.Proofs.C04Standardize.atomCore =
+      m.atoms.map ChythonModel.Proofs.C04Standardize.atomCore ++
+        (List.range' (m.ids.foldl max 0 + 1) k).map fun i => (i, 1, none, 0, false) := by
+  simp only [explicify] at h
+  cases ht : toAdd m.atoms with
+  | none => simp [ht] at h
+  | some l =>
+    cases l with
+    | nil =>
+      simp only [ht, Except.ok.injEq] at h
+      subst h
+      exact ⟨0, by simp⟩
+    | cons n tl =>
+      simp only [ht, Except.ok.injEq] at h
+      subst h
+      exact ⟨(n :: tl).length, ChythonModel.Proofs.C04Standardize.addHydrogens_core (n :: tl) _ m⟩
+
 /-- a molecule numbered 2, 5 (gap, not 1..N): the three hydrogens get 6, 7, 8 — not `len + 1 = 3 …`, which would run into atom 5 -/
 example : ((explicify ⟨[(5, {z := 8, implH := some 1}), (2, {z := 6, implH := some 2})],
       [(5, [(2, ⟨1, none⟩)]), (2, [(5, ⟨1, none⟩)])]⟩).toOption.map fun m => m.ids) = some [5, 2, 6, 7, 8] := by decide +kernel
